@@ -52,6 +52,8 @@ func envOr(k, d string) string {
 
 var stopProfile = func() {}
 
+var engineReplay func(sp HarnessSpec, v *interp.Violation) bool
+
 var pkgDirs = map[string]string{
 	"rescache": "server/rescache",
 	"server":   "server",
@@ -77,6 +79,10 @@ type HarnessSpec struct {
 	MaxPaths int               `json:"max_paths"`
 	Real     []string          `json:"real"`
 	Assume   []string          `json:"assumptions"`
+	// EngineOnly: the harness cannot run natively (stubbed third-party
+	// library); counterexamples are confirmed by deterministic re-execution
+	// of the recorded decision prefix in the engine.
+	EngineOnly bool `json:"engine_only"`
 }
 
 type KnownFinding struct {
@@ -467,6 +473,23 @@ func cmdCheck(args []string) {
 		mu.Unlock()
 	})
 
+	engineReplay = func(sp HarnessSpec, v *interp.Violation) bool {
+		sv, err := smt.NewSolver(*solver, *timeout)
+		if err != nil {
+			return false
+		}
+		defer sv.Close()
+		x := interp.NewExplorerOn(sv)
+		x.SetPrefix(v.Decisions)
+		fn := ld.pkgs[sp.Pkg].Func(sp.Harness)
+		res := interp.RunHarnessK(ld.prog, fn, x, v.Params, 1, nil)
+		for _, w := range res.Violations {
+			if w.AssertID == v.AssertID {
+				return true
+			}
+		}
+		return false
+	}
 	report(*prop, *tier, seed, specs, known, results, ld, *noReplay, t0, loadDur, *solver)
 }
 
@@ -573,6 +596,40 @@ func cmdReplay(args []string) {
 	fs.Parse(args)
 	if *file == "" && fs.NArg() > 0 {
 		*file = fs.Arg(0)
+	}
+	data, err := os.ReadFile(*file)
+	if err != nil {
+		fatal("replay: %v", err)
+	}
+	var rp replayOut
+	if err := json.Unmarshal(data, &rp); err != nil {
+		fatal("replay: %v", err)
+	}
+	for _, sp := range loadIndex() {
+		if sp.Harness == rp.Harness && sp.EngineOnly {
+			// no native mode: re-execute the decision prefix in the engine
+			ld := load()
+			sv, err := smt.NewSolver("z3", 60000)
+			if err != nil {
+				fatal("solver: %v", err)
+			}
+			defer sv.Close()
+			x := interp.NewExplorerOn(sv)
+			x.SetPrefix(rp.Decision)
+			res := interp.RunHarnessK(ld.prog, ld.pkgs[sp.Pkg].Func(sp.Harness), x, rp.Params, 1, nil)
+			for _, w := range res.Violations {
+				fmt.Printf("engine replay: %s assertion=%s: %s\n", w.Harness, w.AssertID, w.Msg)
+				for _, n := range w.Notes {
+					fmt.Println("  ", n)
+				}
+				if w.AssertID == rp.Assert {
+					fmt.Println("REPRODUCED (engine)")
+					os.Exit(1)
+				}
+			}
+			fmt.Println("NOT-REPRODUCED (engine)")
+			return
+		}
 	}
 	ok, out := nativeReplay(*file)
 	fmt.Print(out)
